@@ -1,21 +1,22 @@
 package protocol
 
 // C11 (reorganisation and main-chain index): one reorganisation step from an
-// arbitrary consistent state. Chain.calcReorganizeChain, Chain.reorganizeChain,
-// Chain.setState, Chain.BestBlockHeader, Chain.GetHeaderByHeight and
+// arbitrary consistent state. Chain.calcReorganizeChain, Chain.tryReorganize,
+// Chain.reorganizeChain, Chain.setState, Chain.BestBlockHeader, Chain.GetHeaderByHeight and
 // Chain.InMainChain are the real functions; the store is a mock.
 
 //verif:property C11
-//verif:bound reorganisation: common main chain of 1..2 blocks below an arbitrary base height (< 2^62), old branch of 0..3 blocks and new branch of 0..3 blocks above the fork point (quick) / 0..5 each (thorough); includes pure extension, pure rollback to an ancestor, equal length, longer-to-shorter and shorter-to-longer
+//verif:bound reorganisation: common main chain of 1..2 blocks below an arbitrary base height (< 2^62), old branch of 0..3 blocks and new branch of 0..3 blocks above the fork point (quick) / 0..5 each (thorough); includes pure extension, pure rollback to an ancestor, equal length, longer-to-shorter and shorter-to-longer; the step is entered through tryReorganize(hash of the new tip); finalized height arbitrary in [0, fork point height]; one stored side-fork block (not on either branch) at an arbitrary height of the common part, before and after the step
 //verif:assume pre-state: the height index maps every height up to the old best block to the old best block's ancestor at that height (what this same step establishes); the block tree is well formed (height = parent height + 1, PreviousBlockHash = parent hash)
 //verif:assume store contract (mock, from database/store.go): GetBlockHeader/GetBlock return the saved block of that hash or an error; SaveChainStatus writes index[h.Height] = h.Hash() for exactly the headers it is given and deletes nothing; GetMainChainHash(height) returns the index entry or an error
-//verif:assume BlockHeader.Hash is injective on the blocks of the tree (solver: stub hash built from height and timestamp; native replay: the real hash); Casper.LastFinalized is stubbed (its result is only forwarded to the store)
+//verif:assume BlockHeader.Hash is injective on the blocks of the tree (solver: stub hash built from height and timestamp; native replay: the real hash); Casper.LastFinalized is stubbed for the solver to return the harness' finalized height and hash (native replay: the real Casper whose root checkpoint has that height and hash)
+//verif:assume the finalized checkpoint is at or below the fork point (a reorganisation never detaches a finalized block: C16)
 //verif:assume blocks carry one transaction without inputs and outputs (the UTXO / contract views are not the subject: C10)
-//verif:outside LevelDB, the store's LRU caches (C21), the transaction pool updates of reorganizeChain, processBlock / tryReorganize (channels, goroutines), sequences of more than one reorganisation
+//verif:outside LevelDB, the store's LRU caches (C21), the transaction pool updates of reorganizeChain, processBlock / blockProcessor (channels, goroutines), sequences of more than one reorganisation
 //verif:override (*github.com/bytom/bytom/protocol/bc/types.BlockHeader).Hash -> verifC11StubHeaderHash
 //verif:override (*github.com/bytom/bytom/protocol/casper.Casper).LastFinalized -> verifC11LastFinalized
 //verif:override github.com/bytom/bytom/protocol/casper.NewCasper -> verifC11NewCasper
-//verif:obligation fn=VerifC11Reorganize args=3,3 loops=5000 validate=12
+//verif:obligation fn=VerifC11Reorganize args=3,3 loops=5000 validate=40
 //verif:obligation fn=VerifC11Reorganize args=5,5 loops=5000 tier=thorough secs=3000
 
 import (
@@ -35,7 +36,14 @@ func verifC11StubHeaderHash(bh *types.BlockHeader) bc.Hash {
 	return bc.Hash{V0: bh.Height, V1: bh.Timestamp, V2: 0x5a5a}
 }
 
-func verifC11LastFinalized(c *casper.Casper) (uint64, bc.Hash) { return 0, bc.Hash{} }
+var (
+	verifC11FinHeight uint64
+	verifC11FinHash   bc.Hash
+)
+
+func verifC11LastFinalized(c *casper.Casper) (uint64, bc.Hash) {
+	return verifC11FinHeight, verifC11FinHash
+}
 
 // solver: an empty Casper (NewCasper starts a goroutine); native replay: the real constructor
 func verifC11NewCasper(store state.Store, queue interface{ Post(interface{}) error }, checkpoints []*state.Checkpoint) *casper.Casper {
@@ -150,7 +158,18 @@ func VerifC11Reorganize(maxOld int, maxNew int) {
 	}
 
 	c := &Chain{store: s, bestBlockHeader: oldBest}
-	c.casper = casper.NewCasper(s, nil, []*state.Checkpoint{{Height: 0, Status: state.Justified}})
+	// finalized checkpoint: anywhere at or below the fork point
+	fin := verifU64("finalizedHeight")
+	verifAssume(fin <= fork.Height)
+	verifC11FinHeight, verifC11FinHash = fin, bc.Hash{V0: fin, V1: 999}
+	c.casper = casper.NewCasper(s, nil, []*state.Checkpoint{{Height: fin, Hash: verifC11FinHash, Status: state.Finalized}})
+	// a stored block of a losing fork at a height of the common part
+	stamp++
+	side := &types.BlockHeader{Version: 1, Timestamp: stamp, Height: common[verifChoice("sideAt", len(common))].Height, PreviousBlockHash: bc.Hash{V0: 7, V1: 7}}
+	s.headers = append(s.headers, side)
+	if side.Height <= fin {
+		verifReach("VerifC11Reorganize:side-block-at-or-below-finalized")
+	}
 	c.cond.L = new(sync.Mutex)
 
 	switch {
@@ -163,6 +182,8 @@ func VerifC11Reorganize(maxOld int, maxNew int) {
 	case nOld > 0 && nNew == 0:
 		verifReach("VerifC11Reorganize:rollback-to-ancestor")
 	}
+
+	verifAssert(!c.InMainChain(side.Hash()), "side-fork-block-not-reported-in-main-chain")
 
 	// (a) the attach / detach lists
 	attach, detach, err := c.calcReorganizeChain(newBest, oldBest)
@@ -183,7 +204,7 @@ func VerifC11Reorganize(maxOld int, maxNew int) {
 	}
 
 	// (b) the step itself
-	err = c.reorganizeChain(newBest)
+	err = c.tryReorganize(newBest.Hash())
 	verifAssert(err == nil, "reorganize-no-error")
 	verifAssert(c.BestBlockHeader() == newBest, "best-block-is-the-new-tip")
 
@@ -201,5 +222,6 @@ func VerifC11Reorganize(maxOld int, maxNew int) {
 		verifKnown("KF-C11-STALE-INDEX", h.Height > newBest.Height)
 		verifAssert(!c.InMainChain(h.Hash()), "detached-block-not-reported-in-main-chain")
 	}
+	verifAssert(!c.InMainChain(side.Hash()), "side-fork-block-not-reported-in-main-chain")
 
 }
